@@ -9,6 +9,7 @@ import (
 	"runtime"
 	"strings"
 	"sync"
+	"syscall"
 	"time"
 )
 
@@ -150,4 +151,25 @@ func Alloc(fn func()) uint64 {
 	fn()
 	runtime.ReadMemStats(&b)
 	return b.TotalAlloc - a.TotalAlloc
+}
+
+// CPU runs fn on a locked OS thread and returns the CPU time (user + system)
+// that thread consumed meanwhile.  Unlike wall-clock time this does not grow
+// when the machine is busy with other work, so it can carry a (generous)
+// bound: time the thread spends waiting for a core is not counted.
+func CPU(fn func()) time.Duration {
+	runtime.LockOSThread()
+	defer runtime.UnlockOSThread()
+	a := threadCPU()
+	fn()
+	return threadCPU() - a
+}
+
+func threadCPU() time.Duration {
+	var ru syscall.Rusage
+	const rusageThread = 1 // RUSAGE_THREAD (Linux)
+	if err := syscall.Getrusage(rusageThread, &ru); err != nil {
+		return 0
+	}
+	return time.Duration(ru.Utime.Nano() + ru.Stime.Nano())
 }
